@@ -14,6 +14,7 @@ import Cx.DriverRevSuffix
 import Cx.DriverSeqOps
 import Cx.DriverCompSim
 import Cx.DriverMetaFind
+import Cx.DriverMetaFind2
 import Cx.DriverRevInner
 import Cx.DriverRevAnchored
 import Cx.DriverRevSuffixSet
@@ -26,7 +27,8 @@ def tokens (line : String) : List String := (line.trimAscii.toString.splitOn " "
 def handlers : List (List String → Option String) :=
   [Cx.DriverCompile.handle?, Cx.DriverLit.handle?, Cx.DriverPike.handle?, Cx.DriverFast.handle?, Cx.DriverCompDfa.handle?, Cx.DriverCompSim.handle?, Cx.DriverCost.handle?,
    Cx.DriverConfig.handle?, Cx.DriverCaps.handle?, Cx.DriverDfa.handle?, Cx.DriverUtf8Range.handle?, Cx.DriverRev.handle?, Cx.DriverRevSuffix.handle?,
-   Cx.DriverRevInner.handle?, Cx.DriverRevAnchored.handle?, Cx.DriverRevSuffixSet.handle?, Cx.DriverMultilineRevSuffix.handle?, Cx.DriverMetaFind.handle?, Cx.DriverSeqOps.handle?]
+   Cx.DriverRevInner.handle?, Cx.DriverRevAnchored.handle?, Cx.DriverRevSuffixSet.handle?, Cx.DriverMultilineRevSuffix.handle?, Cx.DriverMetaFind.handle?, Cx.DriverSeqOps.handle?,
+   Cx.DriverMetaFind2.handle?]
 
 def answer (line : String) : String :=
   let toks := tokens line
